@@ -747,9 +747,9 @@ where
         let input_frames_used = self.needed_input_size;
         self.last_index = idx - self.current_buffer_fill as f64;
         self.resample_ratio = self.target_ratio;
-        self.needed_input_size = (self.last_index as f32
-            + self.chunk_size as f32 / self.resample_ratio as f32
-            + POLYNOMIAL_LEN_U as f32)
+        self.needed_input_size = (self.last_index
+            + self.chunk_size as f64 / self.resample_ratio
+            + POLYNOMIAL_LEN_U as f64)
             .ceil() as usize;
         trace!(
             "Resampling channels {:?}, {} frames in, {} frames out. Next needed length: {} frames, last index {}",
